@@ -101,7 +101,9 @@ LineSet == UNION {[1..n -> TokSet] : n \in (IF AllowBlank THEN 0 ELSE 1)..MaxTok
 SpSet   == [nored : NoRedSet, noobf : NoObfSets, width : WidthSet, allow : AllowSet]
 (* nofqdn / dname do not occur in any operator below: the system's own name *)
 (* is the name the system declares, however the cleaner gets to know it and *)
-(* whatever label the inventory shows.                                      *)
+(* whatever label the inventory shows.  MustHide (C08) of the kinds short / *)
+(* fqdn / dom is the same function of obf / host / sysdom for every value   *)
+(* of nofqdn / dname (config own1).                                         *)
 Cfgs    == {c \in [obf : ObfSet, host : HostSet, mac : MacSet, v6 : V6Set, kws : KwSets, pats : PatSets,
                    regex : RegexSet, sysdom : SysDomSet, fam : FamSet, nofqdn : NoFqdnSet, dname : DnameSet] :
                 /\ (c.pats = {} => ~c.regex \/ RegexSet = {TRUE})
